@@ -41,7 +41,7 @@ claim(
     "C03",
     "CrossHair symbolic execution (z3) of the regenerated _get_kwargs / sync_detailed / asyncio_detailed / sync / asyncio against an oracle table built from the document",
     "For every skeleton operation and all argument values/set-unset patterns inside the bounds, exactly one request is issued whose method, url, params, headers, cookies, body kind and Content-Type equal the document-derived oracle; blocking and asyncio variants send the same kwargs; secured operations demand AuthenticatedClient.",
-    "The claim ends at the httpx API boundary (recording stub); httpx's wire encoding is not encoded. Multipart parts are checked for key set and shape only. Shapes outside the skeleton family are outside the claim.",
+    "The claim ends at the httpx API boundary (recording stub); httpx's wire encoding is not encoded. Request media types and their Content-Type come from the document's own keys (parameters such as '; charset=utf-8' included); multipart parts are compared by what they denote (text / JSON / file part with the given bytes) for every property kind; leaving out an argument whose schema declares a default must send that default. Known findings C03-F1 (array of files in multipart) and C03-F2 (union-typed header) sit in a skeleton of their own. Shapes outside the skeleton family are outside the claim.",
     "DESIGN.md §5 C03",
 )
 claim(
@@ -55,7 +55,7 @@ claim(
     "C10",
     "CrossHair symbolic execution (z3) of regenerated from_dict/to_dict and _get_kwargs with symbolic absent/null/present states",
     "For every skeleton property and parameter: absent <-> UNSET and not emitted/not sent, null <-> None where nullable, present <-> value, in both directions, for all symbolic instances inside the bounds.",
-    "Document shape bounded by the skeleton family; signature/annotation half (required <=> no default) checked on the regenerated classes of the family.",
+    "Document shape bounded by the skeleton family (also regenerated with literal_enums); the annotation half (declared type admits None exactly when the document makes the property nullable, Unset exactly when it may be omitted; required <=> no default) is evaluated on the regenerated classes of the family (tri_hints_ / reqd_ conditions).",
     "DESIGN.md §5 C10",
 )
 
@@ -63,7 +63,7 @@ claim(
     "C07",
     "CrossHair symbolic execution (z3) of the real accounting loops (EndpointCollection.from_data, _create_schemas, _process_model_errors) with nondeterministic per-item stubs",
     "For every failing subset, tag assignment and generate_all_tags setting (3 operations), and every success/failure table (3 components), each item ends up generated or named in a diagnostic carrying METHOD and path / the component reference; removal cascades list every removed reference.",
-    "Per-item builders are stubs; the census on whole documents is a concrete replay oracle over the skeleton family (labelled engine=replay in evidence), not a solver verdict; silent module-file collisions (AB/Ab) are only covered by the E1 collision query of C09/C19.",
+    "Per-item builders are stubs in the accounting loops; Endpoint.from_data (responses + request media types of one operation, nothing stubbed), build_schemas on component pairs whose class names coincide, and Project.build's tag directories (rendering replaced by an endpoint marker) run for real. The census on whole documents is a concrete replay oracle over the skeleton family (labelled engine=replay in evidence), not a solver verdict; silent module-file collisions (AB/Ab) are findings C07-F1/F2 of the E1 collision query.",
     "DESIGN.md §5 C07",
 )
 claim(
@@ -75,59 +75,59 @@ claim(
 )
 claim(
     "C12",
-    "CrossHair symbolic execution (z3) of real parsing + Jinja rendering with set iteration order and declaration order as symbolic permutations",
+    "CrossHair symbolic execution (z3) of real parsing + Jinja rendering with declaration order as a symbolic permutation and with the iteration order of *every set the generator builds* as a symbolic permutation (the generator's modules are compiled from a syntax tree in which each set(...), set display, set comprehension and factory=set builds an order-controlled set)",
     "For every explored permutation of components.schemas (allOf parent after child, mutual references), of paths, and of the iteration order of every import set, the rendered model and endpoint modules equal the canonical rendering byte for byte.",
-    "Bounds: 4 schemas / 3 paths / 6-24 permutations; union templates are outside the symbolic run (jinja Namespace vs CrossHair) and covered by the subprocess replay under different PYTHONHASHSEED and shuffled documents; ruff post-hooks outside the claim.",
+    "Bounds: 5 / 8 schemas, 3 / 2 paths, 4-23 permutation indices (one index drives every set of a run; sets of size <= 4 see all their orders); union templates are outside the symbolic run (jinja Namespace vs CrossHair) and covered by the subprocess replay under different PYTHONHASHSEED and shuffled documents; ruff post-hooks outside the claim.",
     "DESIGN.md §5 C12",
 )
 claim(
     "C20",
     "CrossHair symbolic execution (z3) of the real resolvers (parameters, responses, request-body chains, schema references) against their inline twins",
     "For every pooled parameter (location x kind x name x required), response content and schema kind the referenced component yields the same endpoint/property description as the inline copy, every reference to one schema shares one class object, every malformed/dangling/circular reference is a diagnostic that leaves Schemas/Parameters untouched.",
-    "urlparse is not encoded (reference strings from a pool); byte-identity of endpoint modules for ref-vs-inline documents is a concrete replay oracle on three twin documents.",
+    "urlparse is not encoded (reference strings from pools: 6-7 malformed spellings each for parameter, response and request-body references); a schema used as allOf member by reference is left unchanged by that use (8 x 4 x 6 family of Base/Child/Sibling documents); byte-identity of endpoint modules for ref-vs-inline documents is a concrete replay oracle on four twin documents.",
     "DESIGN.md §5 C20",
 )
 
 claim(
     "C05",
-    "bounded symbolic strings (QF_BV, z3): AST interpretation of the real escaping kernels composed with z3 lexer models of the consuming literal contexts (validated against compile()/tokenize/tomllib); replay of payloads through the real generator",
+    "bounded symbolic strings (QF_BV, z3): AST interpretation of the real escaping kernels, and symbolic path-by-path evaluation of the real safe_docstring macro (jinja2 node tree of templates/helpers.jinja), composed with z3 lexer models of the consuming literal contexts (validated against compile()/tokenize/tomllib); replay of payloads through the real generator",
     "For every payload of length <= K over Sigma the escaped text stays one literal of its context (Python double-quoted string, raw/plain docstring, TOML basic string, repr-based default) and decodes to the original, modulo the recorded known findings whose character classes are assumed away; every solver witness is replayed on the real kernel + real consumer. The slot x payload sweep through the whole generator is a concrete replay oracle.",
-    "K = 4 (quick) / 6 (thorough); alphabet Sigma; the call site of the TOML description is isolated as a one-line function whose text is checked against Project.__init__; slots are those of the canary document (45); custom templates outside the claim.",
+    "K = 4 (quick) / 6 (thorough) for the Python kernels, 6 / 10 for the docstring macro (the evaluator is validated against jinja2's own rendering on every run); alphabet Sigma; the call site of the TOML description is isolated as a one-line function whose text is checked against Project.__init__; slots are those of the canary document (45); custom templates outside the claim.",
     "DESIGN.md §5 C05",
 )
 claim(
     "C11",
-    "CrossHair symbolic execution (z3) of regenerated from_dict and _get_kwargs with a recursive run-time conformance check against typing.get_type_hints",
-    "For every skeleton model and every symbolic instance inside the bounds each decoded attribute is an instance of its annotation (forward references resolved against the models package); every value admitted by a parameter/body annotation that the schema-directed builder produces is accepted by the encoder. 'Passes mypy' is NOT decided.",
-    "mypy cleanliness is outside the technique (external static analyser); document shape bounded by the skeleton family.",
+    "CrossHair symbolic execution (z3) of regenerated from_dict and _get_kwargs with a recursive run-time conformance check against typing.get_type_hints; mypy itself only as a concrete gate",
+    "For every skeleton model and every symbolic instance inside the bounds each decoded attribute is an instance of its annotation (forward references resolved against the models package); every value admitted by a parameter/body annotation that the schema-directed builder produces is accepted by the encoder. 'Passes mypy' is not solver-decided.",
+    "mypy is an external static analyser with no solver encoding: it is run with the project's own strictness flags over every skeleton package in both enum styles as a concrete gate (engine=replay; error lines of the two recorded classes C11-F1/F2 are known findings, any other error line is a violation); document shape bounded by the skeleton family.",
     "DESIGN.md §5 C11",
 )
 claim(
     "C13",
     "CrossHair (z3) on every real convert_value with a default of symbolic JSON type; bounded symbolic strings (QF_BV, z3) for string defaults through repr/escape models; CrossHair on regenerated default instances",
     "Every (kind, JSON value) inside the pools is either rejected with a PropertyError or emitted as source that evaluates to the equivalent typed value; allOf re-conversion uses the merged type; an instance built without optional arguments encodes exactly the declared defaults. Known findings (non-finite floats, double quotes in string defaults) are assumed away by class.",
-    "float()/isoparse()/UUID() run concretely on pooled inputs; string defaults symbolic up to length 3 (quick) / 5 (thorough).",
+    "float()/isoparse()/UUID() run concretely on pooled inputs; string defaults symbolic up to length 3 (quick) / 5 (thorough); parameter defaults: leaving out an argument of a skeleton operation sends exactly the declared default in every location (request oracle of the params skeleton).",
     "DESIGN.md §5 C13",
 )
 claim(
     "C14",
     "CrossHair symbolic execution (z3) of regenerated enum/const decoding with candidates from member+near-miss pools, and of the real enum builders with pooled value lists",
     "For every enum/const property of the enum skeleton under both enum styles: decoding succeeds iff the candidate is listed (same JSON type), re-encodes to itself; a null member makes the property nullable; the builders never merge two listed values silently (modulo known finding C14-F1) and store every value verbatim.",
-    "Candidates and enum value lists come from pools; document shape bounded by the enum skeleton.",
+    "Candidates and enum value lists come from pools (incl. values that spell the positional member name of a later value, unions of several constants, constants next to an explicit type); document shape bounded by the enum skeleton.",
     "DESIGN.md §5 C14",
 )
 claim(
     "C15",
     "CrossHair symbolic execution (z3) of the real merge_properties over all 16x16 ordered kind pairs with symbolic required/default flags; regenerated allOf models",
     "For every ordered pair of the 16 representative kinds and every flag combination merge(a,b) and merge(b,a) are both errors or both the documented narrowest kind with required = a or b; the later default is re-converted against the merged type; composed skeleton models (chains, two parents, parent declared after child) round-trip for all instances.",
-    "16 representative kinds; model/union members are outside merge_properties; declaration orders 6 of 120 in the quick tier.",
+    "16 representative kinds + 6 enum value-list pairs (coinciding member names with other values, subsets, disjoint); merge_properties must leave its arguments unchanged; model/union members are outside merge_properties; declaration orders 6 of 120 in the quick tier.",
     "DESIGN.md §5 C15",
 )
 claim(
     "C17",
     "CrossHair symbolic execution (z3) of the in-code normalisations (Schema.handle_nullable, enum-with-null rewrite, single-reference wrapper passthrough) comparing the resulting property trees",
     "For every pooled base schema and required flag the 3.0 `nullable` spelling, the 3.1 type list and the null union member build the same property description; enum-with-null equals the explicit union under both enum styles; single-element allOf/oneOf/anyOf wrappers share the referenced class. JSON-vs-YAML and path-vs-URL are NOT solver-decided (listed in level_note).",
-    "JSON-vs-YAML byte identity is only compared by the concrete replay oracle; file-vs-URL is not covered at all (no network, httpx); union member order is not part of any rewrite.",
+    "JSON-vs-YAML (block and flow style) byte identity is only compared by the concrete replay oracle (the loaders are C code); file-vs-URL is not covered at all (no network, httpx); union member order is not part of any rewrite.",
     "DESIGN.md §5 C17",
 )
 
@@ -141,15 +141,15 @@ claim(
 claim(
     "C16",
     "CrossHair symbolic execution (z3): differential by common oracle — clients regenerated under each behaviour-preserving option satisfy the same document-derived round-trip/request/response oracles for all symbolic inputs; real parser functions for tag placement, content-type overrides, class overrides, default post-hooks",
-    "field_prefix, use_path_prefixes_for_title_model_names=false, docstrings_on_attributes, literal_enums and class_overrides leave wire behaviour identical (same oracle as without the option, all inputs within bounds); generate_all_tags places the same endpoint object under every tag; an overridden media type is classified as its target and still sent as itself; class_overrides only rename.",
+    "field_prefix, use_path_prefixes_for_title_model_names=false, docstrings_on_attributes, literal_enums and class_overrides leave wire behaviour identical (same oracle as without the option, all inputs within bounds); generate_all_tags places the same endpoint object under every tag and Project.build writes, under each tag directory, the module of exactly that operation; an overridden media type is classified as its target and still sent as itself; class_overrides only rename.",
     "'metadata flavour, file encoding, custom template directory and post-hook list affect only the files they are documented to affect' is NOT solver-decided: file-tree relation, exercised only by the replay oracle (meta flavours add only metadata files, version/name overrides, generate_all_tags module identity).",
     "DESIGN.md §5 C16",
 )
 claim(
     "C18",
     "candidate names computed from the AST of the regenerated modules; for each candidate used as property/parameter name the regenerated client is checked by CrossHair (z3) against the same document-derived oracles as a neutral name",
-    "For every identifier the generated model/endpoint modules themselves use (locals, arguments, attributes, methods, imports, keywords; ~90 per scope, recomputed from the current templates) the client generated with that name behaves like the neutral one for all symbolic instances/arguments, except the recorded capturing names (known findings C18-F1/F2); any new capturing name is reported.",
-    "One document shape per scope (model with int/str/list-of-model properties; operation with path/query/header/cookie parameters and a JSON body); the differential is by common oracle, not by comparing two programs.",
+    "For every identifier the generated model/endpoint modules themselves use (locals, arguments, attributes, methods, imports, keywords; ~90 per scope, recomputed from the current templates) the client generated with that name behaves like the neutral one for all symbolic instances/arguments, except the recorded capturing names (known findings C18-F1/F2), each excused only for the conditions (= locations) recorded as failing on the pinned tree; any new capturing name, or a recorded name capturing somewhere else, is reported.",
+    "One document shape per scope (model with union/int/date/str/list-of-model properties; five operations that put the candidate into the query, header, cookie and path location one at a time, with and without a JSON body); the differential is by common oracle, not by comparing two programs.",
     "DESIGN.md §5 C18",
 )
 claim(
